@@ -154,6 +154,9 @@ class Ctx:
         if self.budget_s is not None and time.time() - self.start > self.budget_s:
             self.budget_exhausted = True
             return True
+        if getattr(self, 'sub_deadline', None) is not None and time.time() > self.sub_deadline:
+            self.sub_budget_hits = getattr(self, 'sub_budget_hits', 0) + 1
+            return True
         return False
 
     def record(self, case=None, nontrivial=False, classes=(), sample=None, key=None):
@@ -202,7 +205,7 @@ class Ctx:
         }
 
 
-def hyp_run(ctx, check, strategy, body, max_examples, shrink=True, stateful_steps=None):
+def hyp_run(ctx, check, strategy, body, max_examples, shrink=True, stateful_steps=None, frac=None):
     '''Drive `body(case)` over cases from `strategy`.
 
     body returns None (held) or raises Violation.  Failures attributed to an open known finding
@@ -214,6 +217,12 @@ def hyp_run(ctx, check, strategy, body, max_examples, shrink=True, stateful_step
     if shrink:
         phases.append(Phase.shrink)
     last = {}
+    # a sub-check may be limited to a fraction of what is left of the shard's budget, so that the
+    # sub-checks after it still get their turn (thorough tier: case counts are caps)
+    ctx.sub_deadline = None
+    if frac is not None and ctx.budget_s is not None:
+        left = max(0.0, ctx.budget_s - (time.time() - ctx.start))
+        ctx.sub_deadline = time.time() + frac * left
 
     @seed(ctx.hseed(check))
     @settings(max_examples=max_examples, database=None, deadline=None,
@@ -238,7 +247,10 @@ def hyp_run(ctx, check, strategy, body, max_examples, shrink=True, stateful_step
             raise
 
     try:
-        test()
+        try:
+            test()
+        finally:
+            ctx.sub_deadline = None
     except BudgetStop:
         if 'violation' in last:
             case, message, sig = last['violation']
